@@ -93,7 +93,9 @@ class _R(object):
 
 
 def strat_directed(tier):
-    return gen.directed_scenario(gen.fork_join_ir(), max_choices=60)
+    # (a pause that lands before the last report and the resume that completes the workflow must still
+    # detect a join that can no longer be satisfied)
+    return gen.directed_scenario(gen.fork_join_ir(), max_choices=60, controls={"pause": 1, "resume": 1})
 
 
 def strat_general(tier):
